@@ -155,6 +155,7 @@ pub fn decode_inst(t: &Tape, cfg: &GenCfg, prefix: &str) -> Inst {
     let rrecs = t.sec(S_ROUTES);
     let nroutes = rrecs.len().clamp(1, 4);
     let mut routes = Vec::new();
+    let local_rseg_ids = pick_w(f(p, 19), &[4, 1]) == 1;
     for i in 0..nroutes {
         let r: &[u32] = rrecs.get(i).map(|r| r.as_slice()).unwrap_or(&[]);
         let vt = pick(f(r, 0), ntypes);
@@ -173,7 +174,9 @@ pub fn decode_inst(t: &Tape, cfg: &GenCfg, prefix: &str) -> Inst {
                 _ => Some(3),
             };
             segs.push(RSeg {
-                id: format!("{}R{}S{}", prefix, i, k),
+                // route-segment ids are resolved within their route: they need not be unique
+                // across routes
+                id: if local_rseg_ids { format!("{}S{}", prefix, k) } else { format!("{}R{}S{}", prefix, i, k) },
                 order: k as u64,
                 origin: locs[origin].clone(),
                 destination: locs[dest].clone(),
@@ -218,11 +221,14 @@ pub fn decode_inst(t: &Tape, cfg: &GenCfg, prefix: &str) -> Inst {
                 _ => (cfg.max_need - 1) * cap + 1,
             };
             let mut passengers = passengers;
-            let mut seated = match pick_w(f(r, b + 2), &[4, 3, 1, 1]) {
+            let mut seated = match pick_w(f(r, b + 2), &[8, 6, 2, 2, 1]) {
                 0 => 0,
                 1 => vt.seats.min(passengers),
                 2 => (vt.seats + 1).min(passengers),
-                _ => passengers.min(vt.seats * cfg.max_need),
+                3 => passengers.min(vt.seats * cfg.max_need),
+                // the format does not tie the two figures: more seat reservations than counted
+                // passengers (the seats then decide the formation)
+                _ => (passengers + vt.seats).min(vt.seats * 2),
             };
             // fleet budget: once it is used up, further segments need one vehicle only
             let lim = match (vt.max_form, rs.max_form) {
@@ -234,7 +240,7 @@ pub fn decode_inst(t: &Tape, cfg: &GenCfg, prefix: &str) -> Inst {
             let need = ((passengers.max(1) + cap - 1) / cap).max((seated + vt.seats - 1) / vt.seats);
             if total_need + need.min(lim) > cfg.max_total_need {
                 passengers = passengers.min(cap);
-                seated = seated.min(vt.seats).min(passengers);
+                seated = seated.min(vt.seats);
                 total_need += 1;
             } else {
                 total_need += need.min(lim);
@@ -396,6 +402,9 @@ pub fn inst_classes(fl: &Flat) -> Vec<&'static str> {
     if fl.segs.iter().any(|s| s.need >= 2) {
         c.push("need>=2");
     }
+    if fl.segs.iter().any(|s| s.seated > s.passengers) {
+        c.push("seated>passengers");
+    }
     if fl.segs.iter().any(|s| s.lim.map(|l| s.need > l).unwrap_or(false)) {
         c.push("need>limit");
     }
@@ -436,6 +445,9 @@ pub fn inst_classes(fl: &Flat) -> Vec<&'static str> {
     }
     if inst.departures.iter().any(|d| d.segs.iter().any(|s| s.departure.len() < 19)) {
         c.push("short_date_format");
+    }
+    if inst.routes.len() >= 2 && inst.routes[0].segs[0].id == inst.routes[1].segs[0].id {
+        c.push("route_segment_ids_unique_per_route_only");
     }
     if inst.day_limits.iter().any(|d| d.is_some()) {
         c.push("day_limit_present");
